@@ -1570,6 +1570,26 @@ def prove_scope_governed(st, c, line):
 CONTEXT_MANAGERS['Timeout'] = (_timeout_enter, _timeout_exit)
 
 
+def _sem_enter(st, cm):
+    """`with semaphore:` is acquire() ... finally release() -- through the contracts of those two methods"""
+    c = R.find_contract('Semaphore', 'acquire')
+    if c is None:
+        raise Undecided('with Semaphore: no contract for Semaphore.acquire')
+    call_contract(st, c, [cm], {}, None)
+    return None
+
+
+def _sem_exit(st, cm, tok, pr):
+    c = R.find_contract('Semaphore', 'release')
+    if c is None:
+        raise Undecided('with Semaphore: no contract for Semaphore.release')
+    call_contract(st, c, [cm], {}, None)
+    return False
+
+
+CONTEXT_MANAGERS['Semaphore'] = (_sem_enter, _sem_exit)
+
+
 def bi_in_timeout_scope(st, args, kw):
     return E.mk_bool(z3.BoolVal(st.ghost.get('$timeout_depth', 0) > 0))
 
